@@ -276,6 +276,9 @@ class Typer:
                 self.err(f"comparison {short(Form.atom(a))}", ("a quantity that scales with the waveform is compared with a non-zero literal: the outcome depends on the unit of the input"
                                                                if lit else f"compares a {l!r} quantity with a {r!r} quantity"))
             return NUM
+        if name == "where" and len(args) == 3:
+            self.ty(args[0])          # where(mask, a, b): a where the mask holds, b elsewhere
+            return self.join([self.ty(args[1]), self.ty(args[2])], f"selection {short(Form.atom(a))}")
         if name in self.NUMERIC:
             for x in args:
                 self.ty(x)
@@ -525,6 +528,67 @@ def _rank_split(data):
     return None
 
 
+def _nearest_operands(v, depth=0):
+    """operands m of the nearest-value searches `grid[argmin(|grid - m|)]` a field value consists of (through path merges)"""
+    out = []
+    if not isinstance(v, Form) or depth > 4:
+        return out
+    a = v.single_atom()
+    if a is None:
+        return out
+    if a[0] == "phi":
+        for x in a[2]:
+            out.extend(_nearest_operands(x, depth + 1))
+        return out
+    if a[0] == "idx" and isinstance(a[1], Form) and isinstance(a[2], Form):
+        ia = a[2].single_atom()
+        if ia and ia[0] == "fn" and ia[1] == "argmin" and len(ia[2]) == 1 and isinstance(ia[2][0], Form):
+            ab = ia[2][0].single_atom()
+            if ab and ab[0] == "fn" and ab[1] == "abs" and isinstance(ab[2][0], Form):
+                E, G = ab[2][0], a[1]
+                for m in (G - E, G + E):
+                    if not any(at in m.atoms(deep=False) for at in G.atoms(deep=False)):
+                        ma = m.single_atom()
+                        if ma and ma[0] == "idx" and isinstance(ma[2], TupleV) and ma[2].items and all(isinstance(i_, Const) and i_.v in (None, Ellipsis) for i_ in ma[2].items) \
+                                and isinstance(ma[1], Form):
+                            m = ma[1]          # m[..., None]: axes added for broadcasting, same values
+                        out.append(m)
+    return out
+
+
+def rule_midway(ctx, fi, eye, node, case):
+    """C17.7: the optimum instant is midway between the two crossings - the value searched on the time grid for t_opt is the mean
+    of the two crossing times searched for t_left and t_right (written as their half sum, or as the mean over the time column of
+    the two fitted crossing centres), not an average over the crossing SAMPLES (which is pulled towards the more populated crossing)"""
+    mo, ml, mr = (_nearest_operands(eye.fields.get(k)) for k in ("t_opt", "t_left", "t_right"))
+    if len(mo) != 1 or len(ml) != 1 or len(mr) != 1:
+        ctx.unknown("C17.7", fi, node, f"GET_EYE [{case}]: t_opt midway between the crossings", "nearest-grid searches of t_opt / t_left / t_right not identified")
+        return
+    mo, ml, mr = mo[0], ml[0], mr[0]
+    ok = mo == (ml + mr) / 2
+    if not ok:
+        la = ml.single_atom()
+        # t_left = C[argmin(C[:, 0]), 0], t_right = C[argmax(C[:, 0]), 0] for a two-row table C of crossing centres: mean(C[:, 0]) is their midpoint
+        if la and la[0] == "idx" and isinstance(la[2], TupleV) and len(la[2].items) == 2:
+            C = la[1]
+            col = Form.atom(("idx", C, TupleV([SliceV(Const(None), Const(None), Const(None)), la[2].items[1]])))
+            two_rows = any(at[0] == "attr" and at[2] == "cluster_centers_" for at in C.atoms()) if isinstance(C, Form) else False
+            ok = two_rows and mo in (mk_fn("mean", [col]), mk_fn("sum", [col]) / 2) \
+                and ml == Form.atom(("idx", C, TupleV([mk_fn("argmin", [col]), la[2].items[1]]))) and mr == Form.atom(("idx", C, TupleV([mk_fn("argmax", [col]), la[2].items[1]])))
+        elif la and la[0] == "idx" and isinstance(la[2], Form) and isinstance(la[1], Form):
+            col = la[1]         # the time column held in a variable of its own: col[argmin(col)], col[argmax(col)], col.mean()
+            two_rows = any(at[0] == "attr" and at[2] == "cluster_centers_" for at in col.atoms())
+            ok = two_rows and mo in (mk_fn("mean", [col]), mk_fn("sum", [col]) / 2) \
+                and ml == Form.atom(("idx", col, mk_fn("argmin", [col]))) and mr == Form.atom(("idx", col, mk_fn("argmax", [col])))
+        elif la and la[0] == "fn" and la[1] == "min" and len(la[2]) == 1 and not la[3] and isinstance(la[2][0], Form):
+            col = la[2][0]      # col[col.argmin()] is col.min(): the earlier and the later of the two crossing centres
+            two_rows = any(at[0] == "attr" and at[2] == "cluster_centers_" for at in col.atoms())
+            ok = two_rows and mo in (mk_fn("mean", [col]), mk_fn("sum", [col]) / 2) and mr == mk_fn("max", [col])
+    ctx.check("C17.7", ok, fi, node, f"GET_EYE [{case}]: t_opt searched at {short(mo, 120)}", "the midpoint of the two crossing times",
+              "the optimum instant is not taken midway between the two crossing times (e.g. the mean time of all crossing samples: pulled towards the crossing with more transitions, "
+              "so for records whose transitions are unevenly split between the slot-boundary parities t_opt, the sampling index and the level windows move off the eye centre)")
+
+
 def rule_even_slots(ctx, rule):
     """the eye is folded into traces of TWO slots (the time axis is `nslots // 2` copies of a two-slot ramp), so the record must be
     cut to a whole number of two-slot periods: the remainder dropped at the end is taken modulo an even multiple of sps.  With a
@@ -661,6 +725,7 @@ def run(ctx):
                     else:
                         ctx.check("C17.5", ly == NL * S_, fi, rets[0].node, f"GET_EYE [{case}]: record has sps samples per slot of the time axis", "len(y) == nslots*sps",
                                   f"the record holds {short(ly, 90)} samples but the time axis is built for {short(NL, 90)} slots of sps samples")
+            rule_midway(ctx, fi, eye, rets[0].node, case)
             # C17.4 the two level populations are separated by VALUE (a level-typed threshold between the clusters), never by RANK:
             # a cut of the sorted samples at a position computed from the record length alone assumes a fixed proportion of ones
             # and zeros, and the statement quantifies over every bit pattern with both symbols present
@@ -710,3 +775,4 @@ def run(ctx):
     ctx.require_min("C17.4", 8)
     ctx.require_min("C17.5", 4)
     ctx.require_min("C17.6", 2)
+    ctx.require_min("C17.7", 4)
